@@ -12,6 +12,7 @@ set_option linter.unusedSimpArgs false
 /-- an atom produced by a walk whose flag is `r` -/
 def Atom.flagOk (r : Bool) : Atom → Bool
   | .proper _ _ _ r' => r' == r
+  | .unquotedCmd _ _ _ _ r' => r' == r
   | .text _ _ _ r' => r' == r
   | .redir _ _ _ => !r
   | .inject _ _ _ => true
